@@ -23,7 +23,8 @@ def cases_for(pid, seed):
         cs = [{'kind': 'multiply', 'a': hx(k), 'b': hx(j), 'c': hx(l)} for k in scalar_vals(rng) for j, l in ((1, 1), (5, 7), (0, 3), (N - 1, 9))]
         return cs + [{'kind': 'multiply-nil'}] + [{'kind': 'hidden-scalar', 'n': m} for m in range(14)]
     if pid == 'C02':
-        return [{'kind': 'el-battery', 'op': 'group', 'n': seed}]
+        from props import C02
+        return C02.fold_boundary_scalings() + [{'kind': 'el-battery', 'op': 'group', 'n': seed}]
     if pid == 'C05':
         return [{'kind': 'el-battery', 'op': 'equal', 'n': seed}]
     if pid == 'C04':
